@@ -249,3 +249,21 @@ pub fn call_flag(op: &str, parent_static: bool) -> String {
         _ => format!("no call scheduled: {:?}", it.instruction_result),
     }
 }
+
+// ---------------------------------------------------------------- ether conservation of a failing transfer
+pub fn transfer_sum(key: &str) -> String {
+    let mut db = CacheDB::new(EmptyDB::default());
+    let (from_bal, to_bal, amount) = match key {
+        "OverflowPayment" => (U256::from(10), U256::MAX, U256::from(5)),
+        "OutOfFunds" => (U256::from(1), U256::from(3), U256::from(5)),
+        _ => (U256::from(10), U256::from(3), U256::from(5)),
+    };
+    db.insert_account_info(CALLER, AccountInfo { nonce: 0, balance: from_bal, code_hash: B256::default(), code: None });
+    db.insert_account_info(TARGET, AccountInfo { nonce: 0, balance: to_bal, code_hash: B256::default(), code: None });
+    let mut js = JournaledState::new(SpecId::CANCUN, HashSet::default());
+    let r = js.transfer(&CALLER, &TARGET, amount, &mut db).expect("no db error");
+    let f = js.state.get(&CALLER).unwrap().info.balance;
+    let t = js.state.get(&TARGET).unwrap().info.balance;
+    format!("result={} from_before={} from_after={} to_before={} to_after={}", r.map(|x| format!("{x:?}")).unwrap_or("ok".into()), from_bal, f,
+        if to_bal == U256::MAX { "MAX".to_string() } else { to_bal.to_string() }, if t == U256::MAX { "MAX".to_string() } else { t.to_string() })
+}
